@@ -15,19 +15,27 @@
      * RoundTrip, ShallowWalk, EscapedSafe -- the property.
 
    Trees are pre-order lists of nodes with their depth (a canonical form of ordered trees):
-     node = [d, name, type, body, mode, mt]
+     node = [d, name, type, body, rd, mode, mt]
        name : sequence of character tokens; a token is one ASCII character or "xHH" = the raw byte HH
-       type : "dir" | "file" | "link";  body: content of a file / target of a link (opaque token)
+       type : "dir" | "file" | "link";  body: content of a file / target of a link (sequence of character tokens)
+       rd   : how the file node's Read hands out its content (io.Reader contract, see Script): everything at once
+              or byte by byte, io.EOF separately or TOGETHER with the last bytes, (0, nil) reads in between;
+              "-" for nodes that are not sender-side files
        mode : 0 = unset, else the os.FileMode as an integer (links always carry LinkMode)
        mt   : [set, s, ns]  modification time (unset, or seconds + nanoseconds)
 
-   Open finding Dev_C39_MtimeEpoch (as-built fileInfo): as soon as the form name carries any parameter
+   Open finding Dev_C39_CloseRepeats (as-built MultiFileReader.Read): once every entry has been written, each Read
+   that still finds buffered output writes ANOTHER closing delimiter before draining; a consumer whose buffer is
+   shorter than the delimiter (68 bytes) never sees io.EOF.
+
+   Finding Dev_C39_MtimeEpoch (as-built fileInfo): as soon as the form name carries any parameter
    the mtime is assigned, so a part with a mode but no mtime parses to 1970-01-01T00:00:00Z.          *)
 EXTENDS Integers, Sequences, FiniteSets, TLC
 
 CONSTANTS Names,      \* admissible entry names (sequences of character tokens)
           Types,      \* subset of {"dir", "file", "link"}
-          Bodies,     \* file contents / link targets
+          Bodies,     \* file contents / link targets (sequences of character tokens)
+          Readers,    \* Read behaviours of the sender's file nodes (subset of ReaderClasses)
           Modes,      \* modes for files and directories (0 = unset)
           Mtimes,     \* modification times
           MaxNodes, MaxDepth,
@@ -118,12 +126,12 @@ SiblingNames(t, d) ==
 NodeChoices(t) ==
   LET free(d) == Names \ SiblingNames(t, d)
   IN UNION {
-      {[d |-> d, name |-> n, type |-> "dir", body |-> "", mode |-> m, mt |-> mt] :
+      {[d |-> d, name |-> n, type |-> "dir", body |-> <<>>, rd |-> "-", mode |-> m, mt |-> mt] :
           n \in free(d), m \in Modes, mt \in Mtimes}
-      \cup {[d |-> d, name |-> n, type |-> "file", body |-> b, mode |-> m, mt |-> mt] :
-          n \in free(d), b \in Bodies, m \in Modes, mt \in Mtimes}
-      \cup {[d |-> d, name |-> n, type |-> "link", body |-> b, mode |-> LinkMode, mt |-> mt] :
-          n \in free(d), b \in Bodies \ {""}, mt \in Mtimes}
+      \cup {[d |-> d, name |-> n, type |-> "file", body |-> b, rd |-> r, mode |-> m, mt |-> mt] :
+          n \in free(d), b \in Bodies, r \in Readers, m \in Modes, mt \in Mtimes}
+      \cup {[d |-> d, name |-> n, type |-> "link", body |-> b, rd |-> "-", mode |-> LinkMode, mt |-> mt] :
+          n \in free(d), b \in Bodies \ {<<>>}, mt \in Mtimes}
     : d \in DepthsAfter(t)}
 GoodNode(t, x) == x.type \in Types
 
@@ -138,14 +146,42 @@ Params(x) == [mode  |-> Opt(x.mode # 0, x.mode),
               mtime |-> Opt(x.mt.set, x.mt.s),
               nsecs |-> Opt(x.mt.set /\ x.mt.ns > 0, x.mt.ns)]
 NoParams == [mode |-> <<>>, mtime |-> <<>>, nsecs |-> <<>>]
+
+(* The content of a file part.  MultiFileReader.Read hands the caller's buffer to the file node's Read and repeats
+   until that returns io.EOF; the io.Reader contract lets a Read return n > 0 bytes TOGETHER with io.EOF, return
+   fewer bytes than asked for, or return (0, nil).  Script = the results of the successive Read calls of a file
+   node of the given behaviour class; CopyFile = the bytes that reach the part: every byte of every result,
+   including those of the result that carries io.EOF, after which the file is closed and the next part begins. *)
+ReaderClasses == {"all", "alleof", "one", "oneeof", "zero", "short"}
+RR(n, eof) == [n |-> n, eof |-> eof]
+Script(body, rd) ==
+  LET n == Len(body)
+  IN CASE rd = "alleof" -> <<RR(n, TRUE)>>                                            \* data and EOF together
+       [] rd = "one"    -> [i \in 1..n |-> RR(1, FALSE)] \o <<RR(0, TRUE)>>           \* byte by byte, then (0, EOF)
+       [] rd = "oneeof" -> IF n = 0 THEN <<RR(0, TRUE)>> ELSE [i \in 1..n |-> RR(1, i = n)]  \* last byte with EOF
+       [] rd = "zero"   -> <<RR(0, FALSE)>> \o (IF n > 0 THEN <<RR(n, FALSE), RR(0, FALSE)>> ELSE <<>>) \o <<RR(0, TRUE)>>
+       [] rd = "short"  -> IF n <= 1 THEN <<RR(n, TRUE)>> ELSE <<RR(1, FALSE), RR(n - 1, TRUE)>>  \* short read, rest with EOF
+       [] OTHER         -> (IF n > 0 THEN <<RR(n, FALSE)>> ELSE <<>>) \o <<RR(0, TRUE)>>   \* "all": bytes.Reader, os.File
+RECURSIVE CopyFile(_, _, _, _)
+CopyFile(body, sc, i, off) ==
+  IF i > Len(sc) THEN <<>>
+  ELSE SubSeq(body, off + 1, off + sc[i].n) \o (IF sc[i].eof THEN <<>> ELSE CopyFile(body, sc, i + 1, off + sc[i].n))
+PartBody(x) == IF x.type = "file" THEN CopyFile(x.body, Script(x.body, x.rd), 1, 0) ELSE x.body
+
 JoinSlash(cs) == Flatten([i \in 1..Len(cs) |-> IF i = 1 THEN cs[i] ELSE <<"/">> \o cs[i]])
 PartOf(t, i, form) ==
   [form   |-> form,
    params |-> IF form THEN Params(t[i]) ELSE NoParams,
    fname  |-> Escape(JoinSlash(PathComps(t, i))),      \* filename="<QueryEscape(path.Join(dirs..., name))>"
    ctype  |-> CType(t[i].type),
-   body   |-> t[i].body]
+   body   |-> PartBody(t[i])]
 Serialize(t, form) == [i \in 1..Len(t) |-> PartOf(t, i, form)]
+
+\* The stream as a whole: MultiFileReader is an io.Reader -- whatever the size of the buffers the consumer reads
+\* with, the stream is the parts, ONE closing delimiter, io.EOF.  Closers = number of closing delimiters on the
+\* stream, 0 standing for "no end: closing delimiters for ever".
+ConsumerBufs == <<"all", "one">>          \* io.ReadAll's growing buffer / a one-byte buffer
+Closers(buf, devs) == IF "Dev_C39_CloseRepeats" \in devs /\ buf = "one" THEN 0 ELSE 1
 
 -----------------------------------------------------------------------------
 (* ---------- NewFileFromPartReader and its iterators ---------- *)
@@ -171,10 +207,10 @@ NodeOf(p, rel, depth, devs) ==
   LET ty == CASE p.ctype \in {"application/x-directory", "multipart/form-data"} -> "dir"
               [] p.ctype = "application/symlink" -> "link"
               [] OTHER -> "file"
-  IN [d |-> depth, name |-> rel, type |-> ty, body |-> IF ty = "dir" THEN "" ELSE p.body,
+  IN [d |-> depth, name |-> rel, type |-> ty, body |-> IF ty = "dir" THEN <<>> ELSE p.body, rd |-> "-",
       mode |-> IF ty = "link" THEN LinkMode ELSE InfoMode(p),      \* Symlink.Mode() is constant
       mt |-> InfoTime(p, devs)]
-ImplicitDir(name, depth) == [d |-> depth, name |-> name, type |-> "dir", body |-> "", mode |-> 0, mt |-> NoTime]
+ImplicitDir(name, depth) == [d |-> depth, name |-> name, type |-> "dir", body |-> <<>>, rd |-> "-", mode |-> 0, mt |-> NoTime]
 
 (* Walk(parts, nm, pos, dpath, depth, cur, descend, devs): the entries that a consumer obtains from the iterator
    of the directory whose path is dpath (multipartIterator.Next in a loop), starting at part number pos with
@@ -212,9 +248,11 @@ Parse(parts, descend) == ParseFull(parts, descend).out
 
 -----------------------------------------------------------------------------
 (* ---------- the property ---------- *)
-\* what the receiver must see: in form mode the tree itself; the attachment disposition carries no metadata
+\* what the receiver must see: in form mode the tree itself (names, types, contents, targets, modes, times --
+\* whatever the Read behaviour of the sender's file nodes); the attachment disposition carries no metadata
+Seen(x)  == [x EXCEPT !.rd = "-"]
 Erase(x) == [x EXCEPT !.mode = IF x.type = "link" THEN LinkMode ELSE 0, !.mt = NoTime]
-Expected(t, form) == IF form THEN t ELSE [i \in 1..Len(t) |-> Erase(t[i])]
+Expected(t, form) == [i \in 1..Len(t) |-> IF form THEN Seen(t[i]) ELSE Erase(Seen(t[i]))]
 SelectTop(t) == SelectSeq(t, LAMBDA x : x.d = 1)
 
 \* full walk: the same tree comes back and every part has been consumed
@@ -223,6 +261,8 @@ RoundTrip   == \A form \in BOOLEAN :
 \* a consumer that never enters a directory sees exactly the top-level entries (nested parts are skipped)
 ShallowWalk == \A form \in BOOLEAN :
                   ParseFull(Serialize(tree, form), FALSE) = [out |-> SelectTop(Expected(tree, form)), pos |-> Len(tree) + 1]
+\* the serialised stream ends, after exactly one closing delimiter, for every consumer
+StreamFinite == \A k \in 1..Len(ConsumerBufs) : Closers(ConsumerBufs[k], Devs) = 1
 \* the escaped file name survives the quoted-string layer of the MIME header untouched (no '"', no '\'),
 \* and unescaping is the inverse of escaping on every path
 SafeChars == {"a", "b", "q", "0", "1", "2", "3", "4", "5", "6", "7", "8", "9", "A", "B", "C", "D", "E", "F",
@@ -232,6 +272,12 @@ EscapedSafe == \A i \in 1..Len(tree) :
                        e == Escape(p)
                    IN (\A k \in 1..Len(e) : e[k] \in SafeChars) /\ Unescape(e) = [ok |-> TRUE, val |-> p]
 
+\* every script hands out exactly the content and ends with io.EOF (sanity of the input alphabet)
+ScriptsOK == \A i \in 1..Len(tree) : tree[i].type = "file" =>
+                LET sc == Script(tree[i].body, tree[i].rd)
+                    S[k \in 0..Len(sc)] == IF k = 0 THEN 0 ELSE S[k - 1] + sc[k].n
+                IN /\ S[Len(sc)] = Len(tree[i].body) /\ sc[Len(sc)].eof
+                   /\ \A k \in 1..(Len(sc) - 1) : ~sc[k].eof
 TypeOK == /\ Len(tree) <= MaxNodes
           /\ \A i \in 1..Len(tree) : tree[i].d \in 1..MaxDepth
 
